@@ -42,7 +42,15 @@ Inductive vexpr :=
 | XNLabels2 (a b : vexpr)                 (* max(max(a), max(b)) + 1               -> count *)
 | XMembershipN (labels n : vexpr)         (* get_membership(labels, n_labels=n) *)
 (* --- linalg/ppr_solver.py: RandomSurferOperator (C04) --- *)
-| XAsBool (a : vexpr).                    (* v.astype(bool) used as a number: 1 where the entry is non-zero, else 0 *)
+| XAsBool (a : vexpr)                     (* v.astype(bool) used as a number: 1 where the entry is non-zero, else 0 *)
+(* --- linalg/operators.py: Normalizer (C15) --- *)
+| XLenCols (a : vexpr)                    (* M.shape[1]                            -> count *)
+| XPinvDiag (a : vexpr)                   (* diagonal_pseudo_inverse(v): diag(1 / v_i), null entries stay null *)
+| XIfPos (c t e : vexpr)                  (* t if c > 0 else e *)
+| XMean (a : vexpr)                       (* v.mean() *)
+| XMeanAxis0 (a : vexpr)                  (* M.mean(axis=0) *)
+| XSumAxis0 (a : vexpr)                   (* M.sum(axis=0) *)
+| XOuter (a b : vexpr).                   (* np.outer(u, v) *)
 
 Section Carrier.
   Context {T : Type}.
@@ -210,6 +218,38 @@ Section Carrier.
             Some (WM (List.length l) kk (fun i c => if Z.eqb (nth i l (-1)%Z) (Z.of_nat c) then t1 else t0))
         | _, _ => None
         end
+    | XLenCols a =>
+        match vdenote r a with Some (WM _ k _) => Some (WN k) | _ => None end
+    | XPinvDiag a =>
+        match vdenote r a with
+        | Some (WV n f) => Some (WM n n (fun i j => if i =? j then pinvT (f i) else t0))
+        | _ => None
+        end
+    | XIfPos c t e =>
+        match vdenote r c with
+        | Some (WS x) => if tleb x t0 then vdenote r e else vdenote r t
+        | _ => None
+        end
+    | XMean a =>
+        match vdenote r a with
+        | Some (WV n f) => Some (WS (tdiv (vsum n f) (tnat n)))
+        | _ => None
+        end
+    | XMeanAxis0 a =>
+        match vdenote r a with
+        | Some (WM n k f) => Some (WV k (fun j => tdiv (vsum n (fun i => f i j)) (tnat n)))
+        | _ => None
+        end
+    | XSumAxis0 a =>
+        match vdenote r a with
+        | Some (WM n k f) => Some (WV k (fun j => vsum n (fun i => f i j)))
+        | _ => None
+        end
+    | XOuter a b =>
+        match vdenote r a, vdenote r b with
+        | Some (WV n f), Some (WV k h) => Some (WM n k (fun i j => tmul (f i) (h j)))
+        | _, _ => None
+        end
     | XAsBool a =>
         match vdenote r a with
         | Some (WV n f) => Some (WV n (fun i => if teqb (f i) t0 then t0 else t1))
@@ -276,3 +316,9 @@ Definition qmresult (v : option (vvalue Q)) : list (list Q) :=
 (** environment of RandomSurferOperator: constructor arguments and the vector the operator is applied to *)
 Definition qenv_rso (A : list (list Q)) (n : nat) (seeds x : list Q) (damping : Q) : venv :=
   ("adjacency", wmat 0%Q A n n) :: ("seeds", wvec 0%Q seeds) :: ("damping_factor", WS damping) :: ("x", wvec 0%Q x) :: nil.
+
+(** environment of Normalizer(adjacency, regularization): the operand is a vector ("matrix" : 1-D) or a matrix (2-D) *)
+Definition qenv_normalizer_v (A : list (list Q)) (n k : nat) (reg : Q) (x : list Q) : venv :=
+  ("adjacency", wmat 0%Q A n k) :: ("regularization", WS reg) :: ("matrix", wvec 0%Q x) :: nil.
+Definition qenv_normalizer_m (A : list (list Q)) (n k : nat) (reg : Q) (X : list (list Q)) (r c : nat) : venv :=
+  ("adjacency", wmat 0%Q A n k) :: ("regularization", WS reg) :: ("matrix", wmat 0%Q X r c) :: nil.
